@@ -7,7 +7,8 @@ Producers x objects, each enumerated exhaustively over a small alphabet:
   netgen   tools.netgen.main for every topology at every size in range, with and without centres
   floorset FloorSetInstance.write_yaml_FPEF / _DIEF on synthetic instances (polygon blocks, pins, constraint flags, weights, density)
   rectio   rect_io.get_netlist on allocation files; rect_io.solution_to_netlist on netlists x box solutions
-  legal    legalfloor Model.get_netlist on models built from single-trunk-orthogon netlists
+  legal    legalfloor Model.get_netlist on models built from single-trunk-orthogon netlists, before solving and after each of
+           a few real annealing iterations of the legaliser's own loop
 Oracle: the reader accepts; the parsed object equals the source in what the format carries; producing twice gives the
 identical document; the source object is unchanged by producing.
 """
@@ -515,10 +516,87 @@ def check_legal(case, res):
     res.case('legal', nontrivial=True)
 
 
+def check_legal_solved(case, res):
+    """the legaliser's own loop (build, solve, verify, get_netlist -> netlist_to_utils) for a few annealing iterations:
+    every emitted netlist must be accepted by the reader and describe the model's state"""
+    import tools.legalfloor.legalfloor as lf
+    from frame.netlist.netlist import Netlist
+    attrs = dict(producer='legalfloor.solved', mods=case['mods'])
+    doc = {'Modules': {f'M{i}': copy.deepcopy(LEGAL_MODS[k]) for i, k in enumerate(case['mods'])},
+           'Nets': [[f'M{i}' for i in mem] + ([w] if w != 1 else []) for mem, w in case['nets']]}
+    reset_frame_state()
+    n = Netlist(copy.deepcopy(doc))
+    before = nd.loaded_model(n)
+    try:
+        with quiet():
+            ml, al, xl, yl, wl, hl, hyper, og = lf.netlist_to_utils(n)
+            model = lf.Model(ml, al, xl, yl, wl, hl, 8.0, 8.0, hyper, 3.0, og, 0.9, 0.3, 1.0, None)
+            lf.turn_off_flag(1)
+            model.apply_objective_function()
+    except Exception as e:  # noqa
+        res.violation('produce-raises', case, attrs, 'a model', f'{type(e).__name__}: {e}')
+        res.case('legal-solved')
+        return
+    for it in range(case['iters']):
+        try:
+            with quiet():
+                model.set_fixed_t(it + 1)
+                model.build_model(False, 1)
+                model.solve(False, False, 1)
+                model.force_enforce = model.gekko.verify(model.force_enforce, False)
+        except Exception as e:  # noqa  (a solver failure produces no document)
+            res.counters['legal-solver-failed:' + type(e).__name__] += 1
+            break
+        try:
+            with quiet():
+                net = model.get_netlist()
+        except Exception as e:  # noqa
+            res.violation('reader-rejects', case, dict(attrs, iteration=it), 'the netlist emitted after a solve loads',
+                          f'{type(e).__name__}: {e}')
+            break
+        after = nd.loaded_model(net)
+        if after['order'] != before['order'] or after['nets'] != before['nets']:
+            res.violation('says-different', case, dict(attrs, what='modules-nets', iteration=it), before['nets'], after['nets'])
+        for mi, nm in enumerate(before['order']):
+            b, a = before['modules'][nm], after['modules'][nm]
+            if (b['hard'], b['fixed']) != (a['hard'], a['fixed']):
+                res.violation('says-different', case, dict(attrs, what='kind', iteration=it), (b['hard'], b['fixed']), (a['hard'], a['fixed']))
+            # the document describes the model's state
+            mm = model.M[mi]
+            state = sorted((round(mm.x[j].evaluate(), 9), round(mm.y[j].evaluate(), 9), round(mm.w[j].evaluate(), 9),
+                            round(mm.h[j].evaluate(), 9)) for j in range(len(mm.x)))
+            docr = sorted((round(r['cx'], 9), round(r['cy'], 9), round(r['w'], 9), round(r['h'], 9)) for r in a['rects'])
+            if state != docr:
+                res.violation('says-different', case, dict(attrs, what='rectangles-vs-model', iteration=it), state, docr)
+            if b['hard']:
+                # a hard module comes back congruent (fixed: at its place)
+                t0 = b['rects'][0]
+                ok = len(a['rects']) == len(b['rects'])
+                if ok:
+                    ta = next((r for r in a['rects'] if abs(r['w'] - t0['w']) < 1e-6 and abs(r['h'] - t0['h']) < 1e-6), None)
+                    ok = ta is not None
+                if ok:
+                    for r0 in b['rects']:
+                        if not any(abs(r['w'] - r0['w']) < 1e-6 and abs(r['h'] - r0['h']) < 1e-6 and
+                                   abs((r['cx'] - ta['cx']) - (r0['cx'] - t0['cx'])) < 1e-6 and
+                                   abs((r['cy'] - ta['cy']) - (r0['cy'] - t0['cy'])) < 1e-6 for r in a['rects']):
+                            ok = False
+                    if b['fixed'] and (abs(ta['cx'] - t0['cx']) > 1e-6 or abs(ta['cy'] - t0['cy']) > 1e-6):
+                        ok = False
+                if not ok:
+                    res.violation('says-different', case, dict(attrs, what='hard-shape', iteration=it),
+                                  [(r['cx'], r['cy'], r['w'], r['h']) for r in b['rects']],
+                                  [(r['cx'], r['cy'], r['w'], r['h']) for r in a['rects']])
+        with quiet():
+            model.set_ml(lf.netlist_to_utils(net)[0])
+            model.time_advance(1)
+    res.case('legal-solved', nontrivial=True)
+
+
 # =========================================================================================== dispatch
 def check_case(case, res):
     {'die': check_die, 'alloc': check_alloc, 'netgen': check_netgen, 'floorset': check_floorset,
-     'rectio_get': check_rectio_get, 'rectio_sol': check_rectio_sol, 'legal': check_legal}[case['kind']](case, res)
+     'rectio_get': check_rectio_get, 'rectio_sol': check_rectio_sol, 'legal': check_legal, 'legal_solved': check_legal_solved}[case['kind']](case, res)
 
 
 def netgen_cases(tier):
@@ -600,6 +678,11 @@ def legal_cases(tier):
             out.append(dict(kind='legal', mods=[a, b], nets=[[[0, 1], w]]))
     out.append(dict(kind='legal', mods=['soft1', 'hard1', 'fixed1'], nets=[[[0, 1, 2], 2.5], [[0, 2], 1]]))
     out.append(dict(kind='legal', mods=['softN', 'hardE'], nets=[]))
+    solved = [(['soft1', 'hardE'], [[[0, 1], 2]]), (['softN', 'hard1', 'fixed1'], [[[0, 1, 2], 2.5], [[0, 2], 1]]),
+              (['softN', 'hardE', 'fixed1'], [[[0, 1], 1], [[1, 2], 0.5]]), (['soft1', 'softN'], [[[0, 1], 1]]),
+              (['hard1', 'hardE'], [[[0, 1], 3]])]
+    for mods, nets in solved[:(3 if tier == 'quick' else 5)]:
+        out.append(dict(kind='legal_solved', mods=mods, nets=nets, iters=(2 if tier == 'quick' else 5)))
     return out
 
 
